@@ -16,6 +16,19 @@ from harness import core
 OPS = {"lt": "<", "le": "<=", "eq": "==", "ge": ">=", "gt": ">", "ne": "!="}
 
 
+RID_PREFIXES = ["", "a\nb", "x,y", 'q"q', " ", "a\r\nb", "\n", "c\rd"]
+
+
+def delimited_line(shape, cells):
+    """One line of delimited data as csv's default dialect writes it (what DelimitedRowWriter must produce, C12)."""
+    if shape.single:
+        return ",".join(cells) + "\r\n"  # (an empty line stands for a row without items)
+    import csv
+    stream = io.StringIO(newline="")
+    csv.writer(stream).writerow(cells)
+    return stream.getvalue()
+
+
 class Shape(object):
     """Everything that is fixed for one TLC configuration: number of fields, checks, header, data format."""
 
@@ -31,6 +44,7 @@ class Shape(object):
         self.narrow = fmt == "narrow"  # recording CID that allows digits, dot and blank only (C20: allowed characters are per CID)
         if self.narrow:
             fmt = "delimited"
+        self.declared_line = ":" in fmt  # (delimited data: a line delimiter other than the default 'any' is declared)
         if ":" in fmt:
             fmt, self.line = fmt.split(":")
         self.eol = {"lf": "\n", "crlf": "\r\n", "cr": "\r", "none": "", "any": "\n"}[self.line]
@@ -46,7 +60,7 @@ class Shape(object):
         rows = [["D", "Format", self.fmt]]
         if self.header:
             rows.append(["D", "Header", str(self.header)])
-        if self.fmt == "fixed":
+        if self.fmt == "fixed" or (self.fmt == "delimited" and self.declared_line):
             rows.append(["D", "Line delimiter", self.line])
         if self.file_target:
             rows.append(["D", "Encoding", "ascii"])
@@ -109,6 +123,11 @@ class Shape(object):
         if self.single:
             return [] if row["w"] == "short" else (cells + ["extra"] if row["w"] == "long" else cells)
         rid = ("0.%d" if self.recording else "%d") % number
+        if self.fmt == "delimited" and not self.recording:
+            # the row id of delimited data carries text that needs quoting: line breaks, the delimiter, quotes, blanks
+            prefix = RID_PREFIXES[number % len(RID_PREFIXES)]
+            if prefix:
+                rid = "%s.%s" % (prefix, rid)
         if row["w"] == "enc":
             rid += "\u0100"  # accepted by the Text field, not representable in the target's encoding
         if row["w"] == "short":
@@ -139,7 +158,7 @@ class Shape(object):
             if self.fmt == "fixed":
                 lines.append("".join(cell.ljust(self.width)[:max(self.width, len(cell))] for cell in cells) + self.eol)
             else:
-                lines.append(",".join(cells) + "\r\n")
+                lines.append(delimited_line(self, cells))
         text = "".join(lines)
         if table["fault"]:
             if self.fmt == "fixed":
@@ -171,7 +190,7 @@ def _check_index(shape, error):
     return 0
 
 
-def project_error(shape, error, from_close=False):
+def project_error(shape, error, from_close=False, nrows=None):
     """Abstract error record [cls, line, cell, by, see] of a cutplace error (or of anything else that escaped)."""
     from cutplace import errors
     name = type(error).__name__
@@ -186,6 +205,10 @@ def project_error(shape, error, from_close=False):
     by = _check_index(shape, error) if name == "CheckError" else 0
     message = error.message
     is_end = name == "CheckError" and ("distinct count is" in message or "at end" in message)
+    if name == "CheckError" and by == 0 and not is_end and nrows is not None and error.location is not None:
+        # a message this harness does not know (the wording is no property): an error of the end of the data is the one
+        # that is located behind the last row
+        is_end = from_close or error.location.line >= nrows
     if is_end:
         return {"cls": name, "line": 0, "cell": 0, "by": by, "see": 0}
     if name == "DataFormatError":
@@ -282,7 +305,7 @@ def run_read(shape, cid, run, keep=None, prepared=None, release=False):
         try:
             cutplace.validate(cid, source, validate_until=limit)
         except Exception as error:  # noqa
-            exc = project_error(shape, error)
+            exc = project_error(shape, error, nrows=len(table["rows"]))
     elif api == "rows":
         generator = cutplace.rows(cid, source, on_error=mode, validate_until=limit)
         try:
@@ -301,7 +324,7 @@ def run_read(shape, cid, run, keep=None, prepared=None, release=False):
         except StopIteration:
             pass
         except Exception as error:  # noqa
-            exc = project_error(shape, error)
+            exc = project_error(shape, error, nrows=len(table["rows"]))
             messages.extend(message_problems(shape, error))
     else:
         if end == "close":
@@ -313,7 +336,7 @@ def run_read(shape, cid, run, keep=None, prepared=None, release=False):
                         if len(raw) == 1:
                             _let_go(keep, release)
             except Exception as error:  # noqa
-                exc = project_error(shape, error)
+                exc = project_error(shape, error, nrows=len(table["rows"]))
             if reader is not None:
                 acc, rej = reader.accepted_rows_count, reader.rejected_rows_count
         else:
@@ -336,7 +359,7 @@ def run_read(shape, cid, run, keep=None, prepared=None, release=False):
             except StopIteration:
                 pass
             except Exception as error:  # noqa
-                exc = project_error(shape, error)
+                exc = project_error(shape, error, nrows=len(table["rows"]))
             acc, rej = reader.accepted_rows_count, reader.rejected_rows_count
     out = [item_of(shape, item, messages) for item in raw]
     return {"out": out, "exc": exc, "acc": acc, "rej": rej, "text": text, "messages": messages,
@@ -347,7 +370,7 @@ def expected_line(shape, row, number):
     cells = shape.cells(row, number)
     if shape.fmt == "fixed":
         return "".join(cell.ljust(shape.width) for cell in cells) + (shape.eol if shape.line != "any" else __import__("os").linesep)
-    return ",".join(cells) + "\r\n"
+    return delimited_line(shape, cells)
 
 
 def run_write(shape, cid, run, keep=None, release=False):
@@ -389,7 +412,10 @@ def run_write(shape, cid, run, keep=None, release=False):
             rej += 1
             if so_far() != before:
                 stream_ok = False
-        if path is None and so_far() != expected_stream:
+        # (delimited data with a declared line delimiter: which line end the writer uses is not stated by C14 -- csv's
+        # CR LF or the declared one --, the read-back below decides)
+        exact = not (shape.fmt == "delimited" and shape.declared_line)
+        if path is None and exact and so_far() != expected_stream:
             stream_ok = False
         if number == 1:
             _let_go(keep, release, (writer,))
@@ -398,7 +424,7 @@ def run_write(shape, cid, run, keep=None, release=False):
         try:
             writer.close()
         except Exception as error:  # noqa
-            exc = project_error(shape, error)
+            exc = project_error(shape, error, from_close=True, nrows=0)
     if path is not None:
         if run["end"] == "close":
             with open(path, "r", encoding="ascii", newline="") as produced:
@@ -486,8 +512,24 @@ def normalise_expected(shape, run, expected):
     return result
 
 
+def _without_unknown_check(expected_out, observed_out):
+    """Which check raised is told from the message; where the wording is unknown (0) it is not compared."""
+    result = []
+    for index, item in enumerate(expected_out):
+        item = list(item)
+        if item[0] == "err" and index < len(observed_out) and observed_out[index][0] == "err" and observed_out[index][3] == "CheckError" \
+                and observed_out[index][4] == 0 and item[3] == "CheckError":
+            item[4] = 0
+        result.append(item)
+    return result
+
+
 def differences(run, expected, observed, compare_counters, tolerate_readback_end=False):
     problems = []
+    expected = dict(expected)
+    expected["out"] = _without_unknown_check(expected["out"], observed["out"])
+    if observed["exc"].get("cls") == "CheckError" and observed["exc"].get("by") == 0 and expected["exc"].get("cls") == "CheckError":
+        expected["exc"] = dict(expected["exc"], by=0)
     if run.get("api") != "validate" and observed["out"] != expected["out"]:  # validate() returns nothing
         problems.append("items are %s but must be %s" % (observed["out"], expected["out"]))
     observed_exc = {k: observed["exc"][k] for k in ("cls", "line", "cell", "by", "see")}
